@@ -17,3 +17,5 @@ mk_srv match ca "DNS:localhost,IP:127.0.0.1"
 mk_srv wrongname ca "DNS:other.example,IP:192.0.2.1"
 mk_srv untrusted other "DNS:localhost,IP:127.0.0.1"
 rm -f *.srl other.key
+# weak = a server identity that parses but that the TLS library refuses to serve with (RSA-1024, "ee key too small"):
+# a server configured with it must not fall back to plain text.  (generated afterwards with the same recipe, rsa:1024)
